@@ -606,6 +606,53 @@ def m1(cx):
     cx.check(ok, sg, construct="HybridClass.__setstate__: _XoStruct._from_buffer(state[0], state[1])", detail="view rebuilt from the pickled (buffer, offset)", bad_detail="state is not rebuilt through the struct's view materialiser with (buffer, offset)", sub="hybrid")
 
 
+# ------------------------------------------------------------------------------------------ M3
+CACHE_ATTRS = ("_offsets", "_shape", "_strides")
+
+
+@rule("M3", ["C09", "C10", "C06"], "handle caches that may be shared between two handles are never edited in place")
+def m3(cx):
+    """A copy is planned from its source (`info._offsets = arg._offsets`) and keeps the plan's table as its own
+    cache (`self._offsets = info._offsets`): two handles may hold ONE dict.  That is harmless as long as every
+    refresh REBINDS the cache to a fresh container.  An in-place store (`self._offsets[k] = v`, `.update`, `del`)
+    on a handle's cache then edits the other handle's cache as well: after `copy._update(...)` the source
+    handle addresses the copy's layout (PF21: MemoryError / wrong bytes through the source)."""
+    m = cx.m
+    alias, inplace = [], []
+    for modname in ("struct", "array", "ref", "string", "hybrid_class"):
+        for fn in m.all_functions(modname):
+            for st in own_nodes(fn):
+                if isinstance(st, ast.Assign):
+                    v = st.value
+                    for t in st.targets:
+                        # alias: <obj>.<cache> = <other obj>.<cache>  (no copy call around it)
+                        if isinstance(t, ast.Attribute) and t.attr in CACHE_ATTRS and isinstance(v, ast.Attribute) and v.attr in CACHE_ATTRS + ("offsets", "shape", "strides") and norm(v.value) not in ("cls", "self.__class__"):
+                            alias.append(st)
+                        # in place: <obj>.<cache>[k] = ...
+                        if isinstance(t, ast.Subscript) and isinstance(t.value, ast.Attribute) and t.value.attr in CACHE_ATTRS and norm(t.value.value) not in ("cls",):
+                            inplace.append(st)
+                elif isinstance(st, ast.AugAssign):
+                    t = st.target
+                    if isinstance(t, ast.Subscript) and isinstance(t.value, ast.Attribute) and t.value.attr in CACHE_ATTRS:
+                        inplace.append(st)
+                    if isinstance(t, ast.Attribute) and t.attr in CACHE_ATTRS and norm(t.value) != "cls":
+                        inplace.append(st)
+                elif isinstance(st, ast.Delete):
+                    for t in st.targets:
+                        if isinstance(t, ast.Subscript) and isinstance(t.value, ast.Attribute) and t.value.attr in CACHE_ATTRS:
+                            inplace.append(st)
+                elif isinstance(st, ast.Expr) and isinstance(st.value, ast.Call) and isinstance(st.value.func, ast.Attribute):
+                    f = st.value.func
+                    if f.attr in ("update", "pop", "clear", "setdefault", "popitem", "fill", "sort", "resize", "itemset") and isinstance(f.value, ast.Attribute) and f.value.attr in CACHE_ATTRS and norm(f.value.value) != "cls":
+                        inplace.append(st)
+    cx.need(len(alias) >= 2, "alias sites of the handle caches (plan <- source handle, handle <- plan) not found")
+    for a in alias:
+        cx.ok(a, construct=f"shared: {short(a, 100)}", detail="the cache container is handed on without a copy: sound while nobody edits it in place", nf=f"in-place editors in the package: {len(inplace)}")
+    for st in inplace:
+        cx.bad(st, construct=f"in-place edit of a handle cache: {short(st, 120)}",
+               detail=f"the container may be shared with another handle ({m.loc(alias[0])}: `{short(alias[0], 60)}`): editing it in place re-addresses the other handle too; rebind a fresh container instead", sub="inplace")
+
+
 # ------------------------------------------------------------------------------------------ M2
 def _rank(e, d, depth=0):
     """abstract rank of an array expression: 'nd' | 1 | None(unknown)"""
